@@ -377,10 +377,11 @@ type st struct {
 	m      *mitm
 	cases  int
 	tstart time.Time
+	batch  run.Batch
 }
 
 func (s *st) replay(extra map[string]interface{}) map[string]interface{} {
-	o := map[string]interface{}{"state": s.label}
+	o := map[string]interface{}{"state": s.label, "batch": s.batch}
 	for k, v := range extra {
 		o[k] = v
 	}
@@ -1421,7 +1422,7 @@ func child(b run.Batch, r *ev.Result) {
 	}
 	defer os.RemoveAll(dw.Dir)
 	defer dw.Close()
-	s := &st{World: dw, r: r, rng: rng, tstart: time.Now(), G2: refenc.GenKey(rng),
+	s := &st{World: dw, r: r, rng: rng, tstart: time.Now(), G2: refenc.GenKey(rng), batch: b,
 		label: fmt.Sprintf("seed=%d state=%d offset=%d nsrv=%d mig=%v nmig=%d", b.Seed, sidx, target, nsrv, withMig, nmig)}
 	fail := func(err error) bool {
 		if err != nil {
